@@ -34,6 +34,13 @@ ASSUMPTIONS = [
 ]
 FLOOR = {"quick": 500, "thorough": 10000}
 
+# content directives whose body is parsed as nested Markdown (argument where one is required)
+DIRECTIVE_WRAPS = {"topic": "Title", "sidebar": "Title", "container": "cls", "epigraph": "", "highlights": "",
+                   "pull-quote": "", "compound": "", "warning": "", "tip": "", "important": "",
+                   "class": "cls"}
+ALL_WRAPS = ["quote", "list", "note", "colon", "deep", "div", "dd", "field", "foot", "olist", "figure", "note-in-note",
+             "list-in-note"] + sorted(DIRECTIVE_WRAPS)
+
 _known = None
 
 
@@ -108,6 +115,25 @@ def build(case, tmpdir=None):
                 out.append(":::{admonition} Title\nlead\n\n" + hd + "\n:::")
             elif w == "deep":
                 out.append("> - lead\n>\n>   " + hd)
+            elif w in DIRECTIVE_WRAPS:
+                arg = DIRECTIVE_WRAPS[w]
+                out.append("````{" + w + "}" + (" " + arg if arg else "") + "\nlead\n\n" + hd + "\n\ntail\n````")
+            elif w == "div":
+                out.append("::::cls\nlead\n\n" + hd + "\n::::")
+            elif w == "dd":
+                out.append("Term\n: lead\n\n  " + hd)
+            elif w == "field":
+                out.append(":field: lead\n\n  " + hd)
+            elif w == "foot":
+                out.append(f"ref [^fn{ni}]\n\n[^fn{ni}]: lead\n\n    " + hd)
+            elif w == "olist":
+                out.append("1. lead\n\n   " + hd + "\n\n   tail")
+            elif w == "figure":
+                out.append("````{figure} img.png\ncaption\n\n" + hd + "\n\nlegend\n````")
+            elif w == "note-in-note":
+                out.append("`````{note}\n````{tip}\n" + hd + "\n````\n`````")
+            elif w == "list-in-note":
+                out.append("````{note}\n- lead\n\n  " + hd + "\n````")
             nested.append((f"N{ni}", it["level"]))
             ni += 1
         elif it["t"] == "include":
@@ -146,7 +172,7 @@ def check_case(acc, case) -> list[dict]:
     try:
         text, levels, hlines, nested = build(case, tmp)
         src = os.path.join(tmp, "main.md") if tmp else "<string>"
-        settings = {"myst_enable_extensions": ["colon_fence"]}
+        settings = {"myst_enable_extensions": ["colon_fence", "deflist", "fieldlist"], "myst_footnote_sort": False}
         try:
             doc, warn = front.docutils_parse(text, source_path=src, settings=settings)
         except Exception as exc:  # noqa: BLE001
@@ -206,6 +232,7 @@ def check_case(acc, case) -> list[dict]:
     # nested headings: rubrics with their level, no section, structure unaffected
     if nested:
         rub = {r.astext(): r for r in doc.findall(nodes.rubric)}
+        wrap_of = {f"N{j}": it["wrap"] for j, it in enumerate(x for x in case["items"] if x["t"] == "nested")}
         for marker, L in nested:
             r = rub.get(marker)
             if r is None:
@@ -214,7 +241,8 @@ def check_case(acc, case) -> list[dict]:
             if r.get("level") != L:
                 vs.append(mk("C05:rubric-level", case, L, r.get("level")))
                 break
-            if isinstance(r.parent, (nodes.section, nodes.document)):
+            # (the 'class' directive hoists its parsed body into the surrounding section by design)
+            if isinstance(r.parent, (nodes.section, nodes.document)) and wrap_of.get(marker) != "class":
                 vs.append(mk("C05:rubric-at-section-level", case, "inside container", type(r.parent).__name__))
                 break
 
@@ -254,8 +282,24 @@ def sub_enum(acc, shard, nshards, tier, seed):
                     acc.known_hits[v["signature"]] += 1
                 elif len(acc.violations) < 8 and all(v["signature"] != w["signature"] for w in acc.violations):
                     acc.violations.append(v)
+    # every container kind x nested level x surrounding level pair
+    for w in ALL_WRAPS:
+        for L in range(1, 7):
+            for before in (1, 2):
+                for after in (1, 2, 3):
+                    i += 1
+                    if i % nshards != shard:
+                        continue
+                    case = {"items": [{"t": "h", "level": before}, {"t": "nested", "level": L, "wrap": w},
+                                      {"t": "h", "level": after}]}
+                    for v in check_case(acc, case):
+                        if kn.matches(v):
+                            acc.known_hits[v["signature"]] += 1
+                        elif len(acc.violations) < 8 and all(v["signature"] != x["signature"] for x in acc.violations):
+                            acc.violations.append(v)
     acc.exhaustive = True
     acc.extra["enumerated_sequence_length"] = maxlen
+    acc.extra["container_kinds"] = len(ALL_WRAPS)
 
 
 item_st = st.one_of(
@@ -263,8 +307,7 @@ item_st = st.one_of(
     st.builds(lambda L: {"t": "h", "level": L}, st.integers(1, 6)),
     st.builds(lambda L: {"t": "h", "level": L}, st.integers(1, 4)),
     st.builds(lambda k: {"t": "fill", "kind": k}, st.sampled_from(sorted(FILLERS))),
-    st.builds(lambda L, w: {"t": "nested", "level": L, "wrap": w}, st.integers(1, 6),
-              st.sampled_from(["quote", "list", "note", "colon", "deep"])),
+    st.builds(lambda L, w: {"t": "nested", "level": L, "wrap": w}, st.integers(1, 6), st.sampled_from(ALL_WRAPS)),
 )
 include_st = st.builds(lambda o, ls, e: {"t": "include", "offset": o, "levels": ls, "explicit0": e},
                        st.integers(0, 3), st.lists(st.integers(1, 6), min_size=1, max_size=4), st.booleans())
